@@ -201,3 +201,32 @@ pub fn ctor_floats() -> Vec<f64> {
     }
     v
 }
+
+/// k-th duration count of interior-scan stream `j` (lattice::scan_*): alternately uniform over the whole representable
+/// range, uniform over +-10 000 years, and uniform per binade (every magnitude from nanoseconds to the range bound)
+pub fn scan_dur(k: u64, j: usize) -> i128 {
+    use crate::lattice::{scan_magnitude, scan_point};
+    use crate::oracle::dur::{DMAX, DMIN, NPC};
+    match k % 3 {
+        0 => scan_point(k / 3, j, DMIN, DMAX),
+        1 => scan_point(k / 3, j, -100 * NPC, 100 * NPC),
+        _ => scan_magnitude(k / 3, j, 0, 76).clamp(DMIN, DMAX),
+    }
+}
+
+/// k-th i64 factor of interior-scan stream `j`: whole range, per binade, and small factors 1..=100 000 of both signs
+pub fn scan_i64(k: u64, j: usize) -> i64 {
+    use crate::lattice::{scan_magnitude, scan_point};
+    match k % 3 {
+        0 => scan_point(k / 3, j, i64::MIN as i128, i64::MAX as i128) as i64,
+        1 => scan_magnitude(k / 3, j, 0, 63).clamp(i64::MIN as i128, i64::MAX as i128) as i64,
+        _ => {
+            let m = scan_point(k / 6, j, 1, 100_000) as i64;
+            if (k / 3) % 2 == 0 {
+                m
+            } else {
+                -m
+            }
+        }
+    }
+}
